@@ -150,6 +150,19 @@ theorem shared_shared_rejected :
 theorem atomic_pair_ok : raceFree [{ exU with atomic := true }] = true := by decide
 theorem atomic_plain_rejected : raceFree [{ exU with atomic := true }, { exU with write := false }] = false := by decide
 
+/-- A row the extractor emits for "write to the pointee after publication" / "use after Pool.Put" / "object
+    retained in a field after Put" is a published, non-atomic write with no lock: such a row conflicts with
+    itself (the same statement run by two goroutines, or by the new owner of the object), so **every** table
+    containing one is rejected — this is what makes those extractor patterns proof-visible. -/
+theorem unlocked_write_row_rejected {tbl : List Access} {a : Access} (hmem : a ∈ tbl)
+    (hw : a.write = true) (hna : a.atomic = false) (hp : a.phase = .published) (hl : a.locks = []) :
+    raceFree tbl = false := by
+  have hbad : pairOk a a = false := by
+    simp [pairOk, conflict, sharesLock, hw, hna, hp, hl]
+  cases h : raceFree tbl with
+  | false => rfl
+  | true => rw [mem_pairOk h hmem hmem] at hbad; cases hbad
+
 /-! ## 3. The regenerated access table of /repo -/
 
 /-- the grouped table emitted by the extractor passes the grouped check (kernel evaluation:
